@@ -33,6 +33,10 @@ type opSpec struct {
 	// the first run only). GCAfter: the process collects garbage right after its build returned.
 	Between *opSpec `json:"between,omitempty"`
 	GCAfter bool    `json:"gc_after_run,omitempty"`
+	// FailLate: failing bodies write (half of) their outputs before they fail. SecondPlain
+	// (with run_twice): the second run of the process is not forced although the first was.
+	FailLate    bool `json:"fail_after_writing,omitempty"`
+	SecondPlain bool `json:"second_run_not_forced,omitempty"`
 }
 
 // Edit classes.
